@@ -361,7 +361,7 @@ func (w *World) pickNode() *corev1.Node {
 	return nodes[rapid.IntRange(0, len(nodes)-1).Draw(w.rt, "node")]
 }
 
-var advanceSteps = []time.Duration{300 * time.Millisecond, time.Second, 4 * time.Second, 11 * time.Second, 31 * time.Second, 61 * time.Second, 3 * time.Minute, 11 * time.Minute}
+var advanceSteps = []time.Duration{100 * time.Millisecond, 300 * time.Millisecond, 700 * time.Millisecond, time.Second, 4 * time.Second, 11 * time.Second, 31 * time.Second, 61 * time.Second, 3 * time.Minute, 11 * time.Minute}
 
 var waitingReasons = []string{"ContainerCreating", "ErrImagePull", "ImagePullBackOff", "CreateContainerConfigError", "CrashLoopBackOff", "PodInitializing"}
 
@@ -475,6 +475,22 @@ func (w *World) do(kind string) {
 		val := rapid.SampledFrom([]string{"true", "true", "false", "-", "yes"}).Draw(w.rt, "annVal")
 		w.AnnotFlips++
 		_ = w.C.SetEDSAnnotation(e.Namespace, e.Name, key, val)
+	case "eds-relabel":
+		// metadata.labels of the ExtendedDaemonSet change (a chart version bump, a team label...)
+		e := w.pickEDS()
+		k := rapid.SampledFrom([]string{"team", "chart", "app.kubernetes.io/version"}).Draw(w.rt, "edsLabelKey")
+		v := rapid.SampledFrom([]string{"-", "a", "b", "1.2.3"}).Draw(w.rt, "edsLabelVal")
+		w.C.Tracef("eds %s/%s label %s=%s", e.Namespace, e.Name, k, v)
+		_ = w.C.EditEDS(e.Namespace, e.Name, func(x *edsv1.ExtendedDaemonSet) {
+			if x.Labels == nil {
+				x.Labels = map[string]string{}
+			}
+			if v == "-" {
+				delete(x.Labels, k)
+			} else {
+				x.Labels[k] = v
+			}
+		})
 	case "canary-valid":
 		e := w.pickEDS()
 		if x := w.C.EDS(e.Namespace, e.Name); x != nil && x.Status.Canary != nil {
@@ -547,7 +563,7 @@ func defaultWeights() map[string]int {
 		"pod-start": 3, "pod-unready": 2, "pod-restart": 2, "pod-waiting": 1, "pod-failed": 1, "pod-unknown": 1,
 		"pod-finalize": 2, "pod-unschedulable": 1, "edit-template": 3, "annotation": 2,
 		"node-add": 1, "node-remove": 1, "node-relabel": 1, "node-taint": 1, "node-untaint": 1,
-		"restart-controllers": 1, "gc": 1,
+		"restart-controllers": 1, "gc": 1, "eds-relabel": 1,
 	}
 }
 
